@@ -29,12 +29,12 @@ func verifAction(maxEventSize int, cutOff bool) *MultilineAction {
 const verifMetaFields = `"k8s_namespace":"ns","k8s_pod":"pod","k8s_container_id":"cid","k8s_container":"c"`
 
 // chunk texts (already JSON-escaped, as the container runtime writes them)
-var verifChunks = []string{`a`, `bc`, `\"q`, `d\\`}
+var verifChunks = []string{`a`, `bc`, `\"q`, `d\\`, `\u00e9z`}
 
 // C15.H2 / C13: the k8s multi-line action joins the partial chunks of one container log line.
 func VerifH_C15_k8sChunks() {
 	K := 1 + vf.Choose("events", vf.Param("K", 4))
-	maxSize := []int{0, 6, 9}[vf.Choose("max-event-size", 3)]
+	maxSize := []int{0, 6, 9, 7, 8}[vf.Choose("max-event-size", vf.Param("MS", 3))]
 	cutOff := false
 	if maxSize != 0 {
 		cutOff = vf.Choose("cut-off", 2) == 1
@@ -78,6 +78,7 @@ func VerifH_C15_k8sChunks() {
 				out := root.EncodeToString()
 				chk := insaneJSON.Spawn()
 				vf.Assert(chk.DecodeString(out) == nil, "limited-output-is-valid-json")
+				vf.Assert(verifStrictJSON([]byte(out)), "limited-output-is-strictly-valid-json")
 				vf.Reach("limited-pass")
 			}
 			if isEnd {
@@ -103,6 +104,7 @@ func VerifH_C15_k8sChunks() {
 		out := root.EncodeToString()
 		chk := insaneJSON.Spawn()
 		vf.Assert(chk.DecodeString(out) == nil, "output-is-valid-json")
+		vf.Assert(verifStrictJSON([]byte(out)), "output-is-strictly-valid-json")
 		passed = append(passed, passedEvent{root, want})
 		run = ""
 	}
@@ -135,4 +137,140 @@ func VerifH_C13_k8sLogField() {
 // The engine matches stubs by name; the nil pointer stands for the unexported *podMeta.
 func verifStubGetPodMeta(ns meta.Namespace, pod meta.PodName, cid meta.ContainerID) (bool, *int) {
 	return false, nil
+}
+
+// verifStrictJSON: RFC 8259 validity of one document (plain Go; the data it sees here is concrete).
+func verifStrictJSON(b []byte) bool {
+	i := 0
+	ws := func() {
+		for i < len(b) && (b[i] == ' ' || b[i] == '\t' || b[i] == '\n' || b[i] == '\r') {
+			i++
+		}
+	}
+	var value func(depth int) bool
+	str := func() bool {
+		if i >= len(b) || b[i] != '"' {
+			return false
+		}
+		i++
+		for i < len(b) {
+			c := b[i]
+			switch {
+			case c == '"':
+				i++
+				return true
+			case c < 0x20:
+				return false
+			case c == '\\':
+				if i+1 >= len(b) {
+					return false
+				}
+				e := b[i+1]
+				if e == 'u' {
+					if i+5 >= len(b) {
+						return false
+					}
+					for k := 2; k < 6; k++ {
+						h := b[i+k]
+						if !(h >= '0' && h <= '9' || h >= 'a' && h <= 'f' || h >= 'A' && h <= 'F') {
+							return false
+						}
+					}
+					i += 6
+				} else if e == '"' || e == '\\' || e == '/' || e == 'b' || e == 'f' || e == 'n' || e == 'r' || e == 't' {
+					i += 2
+				} else {
+					return false
+				}
+			default:
+				i++
+			}
+		}
+		return false
+	}
+	value = func(depth int) bool {
+		ws()
+		if i >= len(b) || depth > 8 {
+			return false
+		}
+		switch c := b[i]; {
+		case c == '"':
+			return str()
+		case c == '{':
+			i++
+			ws()
+			if i < len(b) && b[i] == '}' {
+				i++
+				return true
+			}
+			for {
+				ws()
+				if !str() {
+					return false
+				}
+				ws()
+				if i >= len(b) || b[i] != ':' {
+					return false
+				}
+				i++
+				if !value(depth + 1) {
+					return false
+				}
+				ws()
+				if i < len(b) && b[i] == ',' {
+					i++
+					continue
+				}
+				if i < len(b) && b[i] == '}' {
+					i++
+					return true
+				}
+				return false
+			}
+		case c == '[':
+			i++
+			ws()
+			if i < len(b) && b[i] == ']' {
+				i++
+				return true
+			}
+			for {
+				if !value(depth + 1) {
+					return false
+				}
+				ws()
+				if i < len(b) && b[i] == ',' {
+					i++
+					continue
+				}
+				if i < len(b) && b[i] == ']' {
+					i++
+					return true
+				}
+				return false
+			}
+		case c == '-' || c >= '0' && c <= '9':
+			st := i
+			if c == '-' {
+				i++
+			}
+			for i < len(b) && (b[i] >= '0' && b[i] <= '9' || b[i] == '.' || b[i] == 'e' || b[i] == 'E' || b[i] == '+' || b[i] == '-') {
+				i++
+			}
+			return i > st && b[i-1] >= '0' && b[i-1] <= '9'
+		default:
+			for _, lit := range []string{"true", "false", "null"} {
+				if i+len(lit) <= len(b) && string(b[i:i+len(lit)]) == lit {
+					i += len(lit)
+					return true
+				}
+			}
+			return false
+		}
+	}
+	if !value(0) {
+		return false
+	}
+	ws()
+	return i == len(b)
 }
